@@ -1064,6 +1064,15 @@ def reciprocal(x, *, out=None):
     return _out(scalar(1.0, dtype=x.dtype)._div(x), out)
 
 
+def pow_(base, exponent):
+    """scipp.pow as documented: element-wise base ** exponent"""
+    if isinstance(base, Unit):
+        return base ** exponent
+    if not isinstance(base, Var):
+        raise Unsupported('pow of something that is not a variable')
+    return base ** exponent
+
+
 def isclose(x, y, *, rtol=None, atol=None, equal_nan=False):
     """scipp.isclose as documented: abs(x - y) <= atol + rtol * abs(y), rtol defaults to 1e-5, atol to 1e-8 in the unit of y"""
     if getattr(x, 'variances', None) is not None or getattr(y, 'variances', None) is not None:
@@ -1404,7 +1413,7 @@ def build_modules():
         UnitError=UnitError, CoordError=CoordError, VariancesError=VariancesError, BinEdgeError=BinEdgeError,
         VariableError=VariableError,
         units=units, constants=const, typing=typing_, spatial=spatial,
-        scalar=scalar, vector=vector, index=index, to_unit=to_unit, sqrt=sqrt, reciprocal=reciprocal,
+        scalar=scalar, vector=vector, index=index, to_unit=to_unit, sqrt=sqrt, reciprocal=reciprocal, pow=pow_,
         sin=sin, cos=cos, atan2=atan2, asin=asin, acos=acos, exp=exp, log=log, norm=norm, dot=dot, cross=cross,
         values=values, variances=variances, array=array, full=full, concat=_dispatch('concat'), cumsum=_dispatch('cumsum'),
         issorted=_dispatch('issorted'), mean=_dispatch('mean'), arange=arange, round=round_, vectors=vectors, where=where, any=any_, all=all_, max=max_, min=min_, abs=abs_, isnan=isnan, identical=identical, isclose=isclose,
